@@ -234,3 +234,19 @@ def pmap(pool_, fn, jobs, timeout=None):
         raise T.MachineryError("a worker pool did not deliver its results within the time limit")
     except WorkerError as e:
         raise T.MachineryError("a replay worker failed: %s" % str(e)[:1500])
+
+
+def interpreter_limit(text, par):
+    """A RecursionError on a tree more than 100 levels deep: the interpreter's own recursion limits (the C stack counter,
+    which sys.setrecursionlimit does not lift, depends on how deep the harness happens to be when a worker is forked) --
+    not an observation about the library.  `par`: parent function (dict label -> label / Nil)."""
+    if "RecursionError" not in str(text or ""):
+        return False
+    for n in par:
+        k, cur = 0, n
+        while par.get(cur) not in (None, "Nil", 0, "0") and par.get(cur) in par:
+            cur = par[cur]
+            k += 1
+            if k > 100:
+                return True
+    return False
